@@ -7,8 +7,10 @@ import (
 	"os"
 	"os/exec"
 	"path/filepath"
+	"reflect"
 	"strings"
 	"sync"
+	"sync/atomic"
 	"testing"
 
 	"github.com/ChrisTrenkamp/xsel"
@@ -138,6 +140,105 @@ func checkC14(c *c14Case) error {
 		}
 	}
 	os.Remove(currentCaseFile("c14-concurrent"))
+	return nil
+}
+
+// ---- concurrent Unmarshal into a type nobody has unmarshaled into yet ----
+
+type c14UCase struct {
+	Events  []xmodel.Event `json:"events"`
+	Tags    []string       `json:"tags"`  // one string field per tag
+	Nodes   []int          `json:"nodes"` // element indices (mod the number of elements) every goroutine unmarshals from
+	Threads int            `json:"threads"`
+	Slice   bool           `json:"slice,omitempty"` // unmarshal the whole element list into a slice of the struct
+}
+
+var c14U = reg("C14", "c14-unmarshal", checkC14U)
+
+// a process-wide counter that makes every case's struct type a new one (the
+// tags carry it as trailing white space, which changes nothing in the
+// expressions): whatever the library keeps per type is cold when the
+// goroutines start
+var c14TypeSerial uint32
+
+func checkC14U(c *c14UCase) error {
+	p, err := prepareDoc(c.Events)
+	if err != nil {
+		st.Discard("document-not-mirrored")
+		return nil
+	}
+	var elems xsel.NodeSet
+	for _, n := range p.doc.All {
+		if n.Kind == xmodel.Elem {
+			elems = append(elems, p.loc.ToCur[n])
+		}
+	}
+	if len(elems) == 0 || len(c.Tags) == 0 {
+		return nil
+	}
+	serial := atomic.AddUint32(&c14TypeSerial, 1)
+	pad := ""
+	for b := 0; b < 20; b++ {
+		if serial&(1<<uint(b)) != 0 {
+			pad += "\t"
+		} else {
+			pad += " "
+		}
+	}
+	var fields []reflect.StructField
+	for i, tag := range c.Tags {
+		if _, err := safeBuild(tag); err != nil {
+			return fmt.Errorf("harness: tag %q: %v", tag, err)
+		}
+		fields = append(fields, reflect.StructField{Name: fmt.Sprintf("F%d", i), Type: reflect.TypeOf(""), Tag: reflect.StructTag(fmt.Sprintf("xsel:%q", tag+pad))})
+	}
+	typ := reflect.StructOf(fields)
+	one := func(k int) string {
+		defer func() { recover() }()
+		if c.Slice {
+			target := reflect.New(reflect.SliceOf(typ))
+			if err := xsel.Unmarshal(elems, target.Interface()); err != nil {
+				return "error"
+			}
+			return fmt.Sprintf("%q", target.Elem().Interface())
+		}
+		target := reflect.New(typ)
+		if err := xsel.Unmarshal(xsel.NodeSet{elems[k%len(elems)]}, target.Interface()); err != nil {
+			return "error"
+		}
+		return fmt.Sprintf("%q", target.Elem().Interface())
+	}
+	noteCurrent("C14", "c14-unmarshal", c)
+	results := make([][]string, c.Threads)
+	var wg sync.WaitGroup
+	start := make(chan struct{})
+	for gi := 0; gi < c.Threads; gi++ {
+		wg.Add(1)
+		go func(gi int) {
+			defer wg.Done()
+			<-start
+			for _, k := range c.Nodes {
+				results[gi] = append(results[gi], one(k))
+			}
+		}(gi)
+	}
+	close(start)
+	wg.Wait()
+	st.Eval(c.Threads * len(c.Nodes))
+	// the serial executions, afterwards
+	for i, k := range c.Nodes {
+		want := one(k)
+		for gi := range results {
+			if i >= len(results[gi]) || results[gi][i] != want {
+				got := "<nothing: the call panicked>"
+				if i < len(results[gi]) {
+					got = results[gi][i]
+				}
+				return fmt.Errorf("goroutine %d: Unmarshal of element %d into struct{%s} gave %s concurrently, %s serially", gi, k%len(elems), strings.Join(c.Tags, "; "), got, want)
+			}
+		}
+	}
+	os.Remove(currentCaseFile("c14-unmarshal"))
 	return nil
 }
 
@@ -312,6 +413,28 @@ func TestC14(t *testing.T) {
 			}
 		}
 		c14Lib.run(t, c)
+	})
+	runProp(t, "unmarshal", 300, 20000, func(t *rapid.T) {
+		ev := xmodel.Gen(t, xmodel.GenCfg{MaxDepth: 3, MaxKids: 4, Names: []string{"a", "b", "c"}, Numeric: true})
+		c := &c14UCase{Events: ev, Threads: rapid.IntRange(2, 16).Draw(t, "threads"), Slice: rapid.IntRange(0, 3).Draw(t, "slice") == 0}
+		tags := []string{"name()", "string(.)", "count(*)", "count(@*)", "local-name(..)", "*[1]", "@*[1]", "count(ancestor::*)", "count(following::*)", "text()", "string-length(.)", "sum(*)",
+			"concat(name(), '-', count(*))", "translate(., '12', 'ab')", "normalize-space(.)", "position()", "last()", "count(//*)", "substring(., 1, 2)", "boolean(*)", "a", "b", "c", "a | b", "//a[1]"}
+		for i, n := 0, rapid.IntRange(1, 9).Draw(t, "nFields"); i < n; i++ {
+			c.Tags = append(c.Tags, tags[rapid.IntRange(0, len(tags)-1).Draw(t, "tag")])
+		}
+		for i, n := 0, rapid.IntRange(1, 6).Draw(t, "nNodes"); i < n; i++ {
+			c.Nodes = append(c.Nodes, rapid.IntRange(0, 40).Draw(t, "node"))
+		}
+		st.Class(fmt.Sprintf("unmarshal threads=%d", c.Threads/4*4))
+		if len(c.Tags) >= 2 {
+			key := fmt.Sprint("unmarshal", c.Tags, c.Nodes, c.Threads, c.Slice, len(ev))
+			st.NonTrivial(key)
+			st.Class("concurrent-unmarshal-into-a-fresh-type")
+			if len(ev) <= 20 {
+				st.Sample(key, map[string]any{"tags": c.Tags, "goroutines": c.Threads, "elements": c.Nodes, "into a slice": c.Slice})
+			}
+		}
+		c14U.run(t, c)
 	})
 	runProp(t, "cli", 8, 300, func(t *rapid.T) {
 		c := &c14CLICase{N: []int{2, 4, 16}[rapid.IntRange(0, 2).Draw(t, "n")], A: rapid.Bool().Draw(t, "a"), M: rapid.IntRange(0, 2).Draw(t, "m") == 0}
